@@ -265,6 +265,8 @@ def rule_reject(ctx, R, F):
         for sn, sc in sinks:
             reach = tsucc == sn or g.paths_between(tsucc, sn, set()) if tsucc != sn else True
             R.check(not reach, 'blake2b_final: no write after rejecting %s' % show(t['stmt'])[:50], loc(t['stmt'], f), expected='write to out unreachable from the rejecting edge', found='reachable' if reach else 'unreachable')
+            before = sn == t['id'] or bool(g.paths_between(sn, t['id'], set()))
+            R.check(not before, 'blake2b_final: no write before the test %s' % show(t['stmt'])[:50], loc(sc, f), expected='the output is not written on a path that can still be rejected', found='%s precedes the test' % show(sc)[:50] if before else 'no write precedes it')
     # one-shot wrapper
     w = fn(F, 'blake2b')
     g = CFG(w)
